@@ -662,6 +662,7 @@ class Rec(object):
         self.nput = 0
         self.nrep = 0
         self.fired = False
+        self.stop = False             # the running() hook of SeedProgress answers False from now on
 
 
 REC = Rec()
@@ -686,6 +687,9 @@ class RecQueue(object):
         self.items.append([tuple(t) for t in tiles])
         if f and f[0] == 'put_after' and f[1] == idx:
             REC.fired = True
+            if f[2] == 'stop':
+                REC.stop = True      # a polite stop: no exception, the walker asks running() and winds down by itself
+                return
             raise Interrupt()
 
 
@@ -765,6 +769,9 @@ def run_seed(world, progfile, cont, fault=None):
     from mapproxy.seed import seeder
     from mapproxy.seed.util import ProgressStore
     REC = Rec(fault)
+    if not getattr(seeder.SeedProgress, '_c11_running_hook', False):
+        seeder.SeedProgress.running = lambda self: not REC.stop
+        seeder.SeedProgress._c11_running_hook = True
     store = ProgressStore(progfile, continue_seed=cont)
     o = Outcome()
     o.loaded = dict(store.status)
@@ -781,6 +788,9 @@ def run_seed(world, progfile, cont, fault=None):
     except Exception as ex:
         o.exc = ex
         o.interrupted = False
+    if o.exc is None and REC.stop:
+        o.exc = 'stopped through the running() hook'
+        o.interrupted = True
     o.handed = [q.items for q in REC.queues]
     while len(o.handed) < len(world.tasks):
         o.handed.append([])
@@ -1053,7 +1063,7 @@ def choose_points(run, rng, full, explicit=None):
     pts = []
     for k in range(full.nput):
         pts.append(('put_before', k, 'full' if k % 2 else 'kbd'))
-        pts.append(('put_after', k, 'kbd'))
+        pts.append(('put_after', k, 'kbd' if k % 3 else 'stop'))
     for k in range(full.nrep):
         pts.append(('report_before', k, 'kbd'))
         pts.append(('report_after', k, 'kbd'))
@@ -1128,7 +1138,7 @@ def fault_enumeration(run, case, world, full, rng, explicit=None):
         if not first.fired or first.exc is None or not getattr(first, 'interrupted', False):
             raise RuntimeError('fault %r did not interrupt the run: %r' % (p, first.exc))
         before = handed_sets(first.handed)
-        kind = p[0] if p[2] != 'full' else 'put_full'
+        kind = p[0] if p[2] not in ('full', 'stop') else ('put_full' if p[2] == 'full' else 'put_stop')
         second_fault = None
         if explicit is not None and len(explicit[pi]) > 3 and explicit[pi][3]:
             second_fault = tuple(explicit[pi][3])
